@@ -2,10 +2,13 @@
 // ParseError, ParseErrorKind, struct Lexer and its whole impl (lex_string and the eat_* primitives it
 // calls; lex_number is extracted with them but not called: it ends in str::parse::<f64>, which CBMC does
 // not execute).  No shim receiver: the real Lexer has three plain fields.  Hand-written environment:
-// InternedStr (named by ParseErrorKind::RepeatedFieldName only).
+// InternedStr (named by ParseErrorKind::RepeatedFieldName only); String bound to BStr (a std String
+// growing with symbolic content never finished symbolic execution: 10 min, measured).
 #![allow(dead_code, unused)]
 mod u {
 use std::marker::PhantomData;
+//@include shim/bstr.rs
+use self::BStr as String;
 #[derive(Clone, Copy, PartialEq, Eq, Debug)]
 pub struct InternedStr<'p>(pub u8, pub PhantomData<&'p ()>);
 impl<'p> InternedStr<'p> { pub fn value(&self) -> &'p str { "" } }
